@@ -8,7 +8,7 @@ import (
 )
 
 // Read-level harness shared by C03 and C04: a partition log built by the real AppendBatch/Flush
-// over the S3 model (two segments of two batches, an optional hole left by a failed flush, one
+// over the S3 model (two segments of two batches, an optional hole left by a segment that went missing, one
 // batch still in the write buffer, optional restart), then one Read at a symbolic offset with a
 // symbolic byte limit, checked against the flat list of acknowledged batches.
 
@@ -57,13 +57,25 @@ func vsymBuildReadWorld(interval int32, cacheOn, hole, restart bool) *vsymReadWo
 		}
 		vsym_Assert(w.l.Flush(ctx) == nil, "build/flush")
 		if seg == 0 && hole {
-			// a produce whose flush fails: its offsets are consumed, nothing is stored or acknowledged
+			// a middle segment that later goes missing (an orphan skipped by a restore, an
+			// expired object): its offsets are taken, its bytes are not readable
 			lost, _ := NewRecordBatchFromBytes(vsymBatch(2, nil))
-			_, err := w.l.AppendBatch(ctx, lost)
+			res, err := w.l.AppendBatch(ctx, lost)
 			vsym_Assert(err == nil, "build/append")
-			w.s3.crashed = true
-			vsym_Assert(w.l.Flush(ctx) != nil, "build/failed-flush-reports-error")
-			w.s3.crashed = false
+			vsym_Assert(w.l.Flush(ctx) == nil, "build/flush")
+			delete(w.s3.objs, w.l.segmentKey(res.BaseOffset))
+			delete(w.s3.objs, w.l.indexKey(res.BaseOffset))
+			kept := w.l.segments[:0]
+			for _, sr := range w.l.segments {
+				if sr.baseOffset != res.BaseOffset {
+					kept = append(kept, sr)
+				}
+			}
+			w.l.segments = kept
+			delete(w.l.indexEntries, res.BaseOffset)
+			if c != nil {
+				c.SetSegment(w.l.cacheTopicKey(), 0, res.BaseOffset, nil)
+			}
 		}
 	}
 	if restart {
